@@ -94,7 +94,10 @@ class P(Prop):
 
     def exhaustive_scopes(self, tier):
         n = 5 if tier == "thorough" else 4
-        return ["all tracks of 2..%d fixes with legs k*(3,4), k in {-1,0,1,2} and elapsed times in {0,1,2} s per leg (op word asas)" % n]
+        return ["all tracks of 2..%d fixes with legs k*(3,4), k in {-1,0,1,2} and elapsed times in {0,1,2} s per leg (op word asas)" % n,
+                "all histories of %d operations over {computeAbsCurv / estimate_speed on a 4-fix track and on a 2-fix section sharing its observations, "
+                "addAnalyticalFeature(speed), remove abs_curv, remove speed, in-place edit of a position, in-place edit of a timestamp field, duration()}"
+                % (3 if tier == "thorough" else 2)]
 
     def cases(self, rng, tier):
         out = []
